@@ -41,7 +41,10 @@ pub struct MigCase {
     pub keys_equal_sequence: bool,
 }
 
-pub const VERSIONS: [&str; 10] = ["0.4.18", "0.4.20", "1.0.0", "1.1.0", "2.0.0", "garbage", "1.0.0-rc1", "0.4.19", "1.0.1", ""];
+pub const VERSIONS: [&str; 20] = [
+    "0.4.18", "0.4.20", "1.0.0", "1.1.0", "2.0.0", "garbage", "1.0.0-rc1", "0.4.19", "1.0.1", "", "1.0.0+1", "1.0.0+build.5", "0.4.20+x",
+    "0.4.18+a", " 1.0.0", "1.0.0 ", "v1.0.0", "1.0", "01.0.0", "0.4.20-rc.1",
+];
 const SOURCES: [&str; 3] = ["0.4.18", "0.4.20", "1.0.0"];
 
 pub fn mig_case() -> BoxedStrategy<MigCase> {
@@ -55,7 +58,7 @@ pub fn mig_case() -> BoxedStrategy<MigCase> {
     let pkt = (any::<u16>(), prop_oneof![4 => Just(0u64), 1 => 1u64..5, 1 => any::<u64>()], amount.clone(), 0u8..4)
         .prop_map(|(k, dk, amount, status)| LegacyPacket { key: k as u64 + 1, sequence: (k as u64 + 1).wrapping_add(dk), amount, status });
     (
-        (case_strategy(&p), prop_oneof![8 => Just(0u8), 1 => Just(1u8), 1 => Just(2u8)], 0u8..10, 0u8..3),
+        (case_strategy(&p), prop_oneof![8 => Just(0u8), 1 => Just(1u8), 1 => Just(2u8)], 0u8..20, 0u8..3),
         (
             proptest::collection::vec(pkt, 0..40),
             proptest::collection::vec((any::<u32>().prop_map(|x| x as u64), amount), 0..6),
